@@ -56,13 +56,14 @@ def cfg_C02(tier, rng):
 def cfg_C03(tier, rng):
     return [dict(name='skeleton', charts=f1(tier, rng, sample_t=2000),
                  consts=dict(MaxQ=1, MaxLevel=8 if tier == QUICK else 10),
-                 variants=[dict(variant='api'), dict(variant='ryaml')],
+                 variants=[dict(variant='api_edit'), dict(variant='ryaml')],
                  random=dict(count=150 if tier == QUICK else 1500, length=12,
                              family=lambda r, k: gc.family_f3(r, k, nmin=5, nmax=9)))]
 
 
 def cfg_C06(tier, rng):
-    return [dict(name='history', charts=f1(tier, rng, need=has_history, sample_t=2500),
+    big = gc.family_hist(rng, 40 if tier == QUICK else 500)
+    return [dict(name='history', charts=f1(tier, rng, need=has_history, sample_t=2500) + big,
                  consts=dict(MaxQ=1, MaxLevel=9 if tier == QUICK else 11),
                  variants=[dict(variant='api')],
                  random=dict(count=150 if tier == QUICK else 1500, length=16,
@@ -71,8 +72,8 @@ def cfg_C06(tier, rng):
 
 
 def cfg_C01(tier, rng):
-    k = 120 if tier == QUICK else 1200
-    return [dict(name='bundles', charts=gc.family_f2(rng, k),
+    k = 90 if tier == QUICK else 1200
+    return [dict(name='bundles', charts=gc.family_f2(rng, k) + gc.family_nested(rng, 40 if tier == QUICK else 500),
                  consts=dict(MaxQ=1, MaxLevel=6 if tier == QUICK else 8),
                  variants=[dict(variant='api')],
                  random=dict(count=150 if tier == QUICK else 1500, length=12,
@@ -80,9 +81,10 @@ def cfg_C01(tier, rng):
 
 
 def cfg_C04(tier, rng):
-    k = 150 if tier == QUICK else 1500
+    k = 100 if tier == QUICK else 1200
     charts = [c for c in gc.family_f2(rng, 3 * k, max_shared=3, max_eventless=1)
               if has_orthogonal(c) or rng.random() < 0.3][:k]
+    charts += gc.family_nested(rng, 120 if tier == QUICK else 1500)
     return [dict(name='bundles', charts=charts,
                  consts=dict(MaxQ=1, MaxLevel=6 if tier == QUICK else 8),
                  variants=[dict(variant='api')],
